@@ -101,6 +101,9 @@ def handler (op : String) (j : Json) : Option (R Json) :=
   | "apps.shrink" => some do
     let g ← getGraph j
     pure <| exc natList (shrink g (← getNatList j "S") (← getSel j) (getPick j))
+  | "apps.cliqueSearch" => some do
+    let g ← getGraph j
+    pure <| exc natList (cliqueSearch g (← getNatList j "S") (← getNat j "it") (← getSel j) (getPick j))
   | "apps.resize" => some do
     let g ← getGraph j
     pure <| exc sizeMap (resize g (← getNatList j "S") (← getNat j "min") (← getNat j "max") (← getSel j) (getPick j))
